@@ -120,6 +120,15 @@ CHECKS["C12"] = dict(
     note="PARTIAL: 'no public operation changes its arguments' is about the CPython heap and cannot be a theorem of a functional model; it is monitored at run time (snapshots), named as such. "
          "Hash/eq theorems for deb, gentoo, rpm etc. are not yet proved (checked on the implementation). Known finding: maven == is not an equivalence where a sub-list with an empty first item faces a missing item.")
 
+CHECKS["C11"] = dict(
+    text="Per modelled scheme the constructor is the code's `normalize; is_valid; build_value`, with the validity check and the builder as two separate code-shaped models. Proved: "
+         "the validity check says 'valid' exactly when construction succeeds and a failed construction is the invalid-version error (generic, ebuild, alpine, legacy openssl, deb); "
+         "the print/re-construct round trip for generic, ebuild and alpine (normalisation is idempotent). For every version class the implementation is checked on the documented-"
+         "grammar, near-pair, exhaustive small-alphabet, malformed and non-ASCII streams: validity vs constructor, error type, acceptance of grammar strings, round trip, whitespace "
+         "and leading-v invariance; modelled classes are compared with their model string by string.",
+    ref="6 (C11)", technique="Coq proof (two-path constructor models) for the modelled schemes + per-class stream evaluation and model correspondence",
+    note="PARTIAL in breadth (models for generic, legacy openssl, ebuild, alpine, deb). Round trips of structured printers are checked on the implementation only. Known finding: deb colon inside upstream. Non-ASCII input is outside the models.")
+
 PENDING = {}
 
 
